@@ -1,6 +1,7 @@
 (* C02 -- Every produced store is a self-consistent, openable VCF Zarr dataset. *)
 From Coq Require Import ZArith List Bool.
 From B2Z Require Import Base.Prims Model.Schema Proofs.SchemaProofs Proofs.DimsProofs.
+From B2Z Require Import Base.Eff Protocol.VczEffects Gen.GenVczProtocol.
 Import ListNotations.
 Open Scope Z_scope.
 
@@ -36,3 +37,13 @@ Example dims_incoherent_refuted :
                     {| sp_name := AField 1 7; sp_dtype := 1; sp_shape := [2; 3]; sp_chunks := [10; 3]; sp_dims := [DVariants; DAlleles]; sp_field := Some (1, 7) |} ] = false
   /\ match from_field p ad (AField 1 7) with Ok s => sp_dims s = [DVariants; DField 1 7] | Err _ => False end.
 Proof. vm_compute. split; reflexivity. Qed.
+
+(* "the consolidated metadata lists exactly the arrays on disk": over the effect sequence regenerated
+   from VcfZarrWriter.finalise on every run -- every array is moved out of wip/ (ForArrays ... ARename
+   wip/arrays/<a> -> <a>), wip/ is removed, and only then is the metadata consolidated, as the last
+   mutation of the command *)
+Theorem consolidated_after_wip_removed :
+  consolidated_clean vcz_finalise false = true /\ last_mutation vcz_finalise = Some Consolidate /\
+  exists body, In (ForArrays body) vcz_finalise /\ In (ARename ZArrTmpl ZFinalArr) body.
+Proof. split; [reflexivity|split; [reflexivity|]]. eexists. split; [vm_compute; auto 10|vm_compute; auto 10]. Qed.
+Print Assumptions consolidated_after_wip_removed.
